@@ -92,6 +92,11 @@ CHECKS = {
         text="TLA+ model of the zip extraction worker pool (rendezvous dispatch, resume register, crash at any step, restart with the surviving folder and resume file) model-checked for 2..3 workers, 3..4 entries and 1..2 crashes: after the final run every entry is complete. Real CompressZip/ExtractZip with 1, 2, 3, 4, 8, 16 and -1 workers and CompressTar/ExtractTar on trees with nested and empty dirs, empty files, symlinks and many small files: TLC checks tree equality and that the reported counts equal the entries; resumable extractions are killed at chosen instants (resume file, then a copy of the destination folder, taken from inside OnEntryDone while the other workers keep running; reads of a large first entry slowed down so that later entries complete first) and restarted with the surviving resume file - the tree must be complete; a -race build repeats a subset and race reports with archiver frames are reported.",
         note="kill = (resume file read first, then folder copy), at least as complete as the folder at the read; tar: round trip only.",
         technique="TLA+ model checking (TLC) + trace validation of real round trips and kill/restart executions against the TLA+ property; Go race detector for the counter clause"),
+    "C15": dict(
+        level="model_checking", ref="DESIGN.md §4 C15",
+        text="TLA+ model of the per-file diff pipeline (multiread over two io.Pipes fed by an upstream with arbitrarily short reads, diff and sign consumers, task group) model-checked over every chunking of a short stream and every interleaving: each consumer receives the whole stream in order (its output is a function of the bytes only), no wedge, the group returns only after all three tasks, completion under fairness; the optimizer's target choice with the tally visited in any order is a function of the input (Rediff.tla); the bsdiff scanner pipeline forwards matches in block order (BsdiffPipe.tla). Each build pair (incl. ties between differently named old files) is diffed R times under GOMAXPROCS 1..16 with seeded short reads / yields and its patch optimized R times: TLC requires equal patch, signature and optimized digests. The race-freedom clause is decided by a -race build of the same driver (reports with a wharf frame).",
+        note="race clause: Go race detector on the recorded executions, attributed to wharf by stack frames; real schedules are sampled.",
+        technique="TLA+ model checking incl. liveness (TLC) + trace validation of repeated real runs against the TLA+ determinism property; Go race detector for the race clause"),
 }
 
 NOT_YET = "check not built yet in this round (planned: DESIGN.md §4); not a claim that the technique cannot apply"
